@@ -84,3 +84,26 @@ func symChoose(n int) int {
 	verifChoice++
 	return v
 }
+
+// Non-forking Boolean connectives: under symgo they build one term instead of branching
+// (Go's && and || compile to control flow, which forks on symbolic operands).
+func symAnd(a, b bool) bool { return a && b }
+func symOr(a, b bool) bool  { return a || b }
+func symNot(a bool) bool    { return !a }
+func symIteInt(c bool, a, b int) int {
+	if c {
+		return a
+	}
+	return b
+}
+
+// symDFAAccepts runs a table-driven automaton (trans[state*nc+class[b]]) over s from start
+// and reports accept[final] != 0. Under symgo it is simulated one-hot over the symbolic bytes
+// (a Boolean circuit, no forks, no bit-vector arithmetic); natively it is this loop.
+func symDFAAccepts(trans []uint8, nc int, class []uint8, start uint8, s string, accept []uint8) bool {
+	st := start
+	for i := 0; i < len(s); i++ {
+		st = trans[int(st)*nc+int(class[s[i]])]
+	}
+	return accept[st] != 0
+}
